@@ -359,3 +359,88 @@ def outer_origins(F, fn, op, depth=3, transparent_extra=(), _seen=None):
             if o.local - 1 < len(t["args"]):
                 out.extend(outer_origins(F, caller, t["args"][o.local - 1], depth - 1, transparent_extra, _seen))
     return out
+
+
+# ------------------------------------------------------------------------------------------
+# collecting the elements of a collection into a map / set under a key that is only a part of the element
+
+KEYED_TARGET = ("BTreeMap<", "HashMap<", "BTreeSet<", "HashSet<", "IndexMap<")
+KEY_IDENT = ("std::clone::Clone::clone", "std::borrow::ToOwned::to_owned", "std::convert::AsRef::as_ref", "std::ops::Deref::deref",
+             "std::vec::Vec::<T, A>::as_slice", "std::string::String::as_str", "std::borrow::Borrow::borrow", "std::convert::From::from",
+             "std::convert::Into::into", "alloc::slice::<impl [T]>::to_vec", "std::slice::<impl [T]>::to_vec", "std::string::ToString::to_string",
+             "std::iter::Iterator::cloned", "std::iter::Iterator::copied")
+ITER_PASS = ("std::iter::Iterator::filter", "std::iter::Iterator::cloned", "std::iter::Iterator::copied", "std::iter::Iterator::rev",
+             "std::iter::IntoIterator::into_iter", "std::iter::Iterator::peekable", "std::iter::Iterator::skip_while",
+             "std::iter::Iterator::take_while", "std::iter::Iterator::inspect")
+
+
+def keyed_collapses(F, g):
+    """Sites in g where an iterator is mapped to (key, value) pairs - or to keys - and collected into a map / set, and the key is
+    a proper part of the element or computed from it (a field of a struct element, a lower-cased name): elements with equal
+    keys collapse into one entry.  Keys that are the element itself, or the key of a map entry being re-collected, are fine.
+    Returns [(line, description)]."""
+    out = []
+    du = mir.DefUse(g)
+    for bi, t in mir.calls(g):
+        c = t.get("callee") or ""
+        name = c.split("::")[-1]
+        if name not in ("collect", "from_iter") or not t["args"]:
+            continue
+        target = " ".join(t.get("gargs") or []) + " " + (t.get("resolved") or "") + " " + g["locals"][t["dest"]["l"]]
+        tgt = None
+        for k in KEYED_TARGET:
+            if k in (t.get("gargs") or ["", ""])[-1] or k in g["locals"][t["dest"]["l"]].split("Result<")[-1][:80]:
+                tgt = k
+        if tgt is None:
+            continue
+        is_map = "Map" in tgt
+        # the Iterator::map feeding the collect
+        seen = set()
+        st = [t["args"][0]]
+        maps = []
+        hops = 0
+        while st and hops < 12:
+            hops += 1
+            op = st.pop()
+            for o in mir.provenance(g, du, op):
+                if o.kind != "call" or id(o.term) in seen:
+                    continue
+                seen.add(id(o.term))
+                if o.callee == "std::iter::Iterator::map":
+                    maps.append(o.term)
+                elif o.callee in ITER_PASS and o.term["args"]:
+                    st.append(o.term["args"][0])
+        for mt in maps:
+            clos = []
+            for o in mir.provenance(g, du, mt["args"][1]) if len(mt["args"]) > 1 else []:
+                if o.kind == "agg" and o.rv.get("closure") in F.fns:
+                    clos.append(F.fns[o.rv["closure"]])
+            for cfn in clos:
+                dc = mir.DefUse(cfn)
+                elem_ty = cfn["locals"][2] if len(cfn["locals"]) > 2 else ""
+                for bj, sj, s in mir.stmts(cfn):
+                    if s["lhs"]["l"] != 0 or s["lhs"]["p"]:
+                        continue
+                    rv = s["rv"]
+                    if is_map:
+                        if not (rv["k"] == "agg" and "tuple" in rv and len(rv["ops"]) == 2):
+                            continue
+                        keyop = rv["ops"][0]
+                    else:
+                        keyop = rv.get("op") if rv["k"] == "use" else None
+                        if keyop is None:
+                            continue
+                    orgs = mir.provenance(cfn, dc, keyop, transparent_extra=KEY_IDENT)
+                    for o in orgs:
+                        if o.kind == "arg" and o.local >= 2:
+                            proj = [p for p in o.proj if not p.startswith(" as ")]
+                            if not proj:
+                                continue
+                            if elem_ty.lstrip("&").startswith("(") and proj[0] == ".0" and len(proj) == 1:
+                                continue   # the key of a map entry
+                            out.append((mt["line"], "key `%s` of each element (%s) - elements that agree on it collapse into one entry of the %s" % (
+                                "".join(proj).lstrip("."), elem_ty[:60], tgt.rstrip("<"))))
+                        elif o.kind == "call":
+                            out.append((mt["line"], "key computed by %s(..) - elements whose computed keys collide collapse into one entry of the %s" % (
+                                o.callee.split("::")[-1], tgt.rstrip("<"))))
+    return out
